@@ -201,6 +201,10 @@ pub fn run_case<P: Property>(case: &P::Case) -> Outcome {
     let r = std::panic::catch_unwind(std::panic::AssertUnwindSafe(|| P::run(case)));
     let panics = take_panics();
     crate::hooks::h().reset_all();
+    if !panics.is_empty() || r.is_err() {
+        let _ = std::panic::catch_unwind(crate::fscn::cleanse_thread_local);
+        let _ = take_panics();
+    }
     match r {
         Ok(mut o) => {
             if o.weight == 0 {
@@ -249,6 +253,8 @@ pub struct Violation {
     pub replay: String,
     pub sig: String,
     pub msg: String,
+    #[serde(default)]
+    pub alt_replay: Option<String>,
 }
 
 static CURRENT: Mutex<Option<(Instant, String)>> = Mutex::new(None);
@@ -301,6 +307,7 @@ pub fn worker<P: Property>(tier: Tier, seed: u64, chunk_idx: &str, ncases: u64, 
     let failed = Cell::new(false);
     let sample_keys = RefCell::new(BTreeSet::<String>::new());
     let last_fail = RefCell::new(None::<Failure>);
+    let first_fail = RefCell::new(None::<(String, Failure)>);
 
     let body = |case: &P::Case| -> Result<(), TestCaseError> {
         let js = serde_json::to_string(case).unwrap();
@@ -349,6 +356,9 @@ pub fn worker<P: Property>(tier: Tier, seed: u64, chunk_idx: &str, ncases: u64, 
         }
         match o.fail {
             Some(f) if !known => {
+                if !failed.get() {
+                    *first_fail.borrow_mut() = Some((js.clone(), f.clone()));
+                }
                 failed.set(true);
                 let m = format!("{} :: {}", f.sig, f.msg);
                 *last_fail.borrow_mut() = Some(f);
@@ -395,13 +405,23 @@ pub fn worker<P: Property>(tier: Tier, seed: u64, chunk_idx: &str, ncases: u64, 
                 });
                 // a shrunk case may have wandered into a listed finding: then report the
                 // original failure's signature instead of hiding it
-                violation = Some(save_violation::<P>(&case, &f, &format!("{reason}")));
+                let mut v = save_violation::<P>(&case, &f, &format!("{reason}"));
+                // keep the original (unshrunk) failing case too: the driver verifies both in
+                // fresh processes and reports the one that reproduces
+                if let Some((js, f0)) = first_fail.borrow().clone() {
+                    if let Ok(c0) = serde_json::from_str::<P::Case>(&js) {
+                        let v0 = save_violation::<P>(&c0, &f0, "original failing case");
+                        v.alt_replay = Some(v0.replay);
+                    }
+                }
+                violation = Some(v);
             }
             Err(TestError::Abort(reason)) => {
                 violation = Some(Violation {
                     replay: String::new(),
                     sig: "generator-abort".into(),
                     msg: format!("proptest aborted: {reason}"),
+                    alt_replay: None,
                 });
             }
         }
@@ -435,6 +455,7 @@ fn save_violation<P: Property>(case: &P::Case, f: &Failure, reason: &str) -> Vio
         replay: path.to_string_lossy().to_string(),
         sig: f.sig.clone(),
         msg: format!("{} ({})", f.msg, reason.chars().take(200).collect::<String>()),
+        alt_replay: None,
     }
 }
 
@@ -602,6 +623,7 @@ pub fn check<P: Property>(tier: Tier, seed: u64) -> i32 {
                     replay: f.to_string_lossy().to_string(),
                     sig,
                     msg: "regression case timed out".into(),
+                    alt_replay: None,
                 });
             }
         } else if v.failed {
@@ -612,6 +634,7 @@ pub fn check<P: Property>(tier: Tier, seed: u64) -> i32 {
                     replay: f.to_string_lossy().to_string(),
                     sig: v.sig,
                     msg: v.msg,
+                    alt_replay: None,
                 });
             }
         }
@@ -713,6 +736,7 @@ pub fn check<P: Property>(tier: Tier, seed: u64) -> i32 {
                                         replay: f.to_string_lossy().to_string(),
                                         sig: "hang".into(),
                                         msg: "case exceeds the watchdog limit reproducibly".into(),
+                                        alt_replay: None,
                                     });
                                     stop_spawning = true;
                                 }
@@ -722,6 +746,7 @@ pub fn check<P: Property>(tier: Tier, seed: u64) -> i32 {
                                     replay: f.to_string_lossy().to_string(),
                                     sig: v.sig,
                                     msg: v.msg,
+                                    alt_replay: None,
                                 });
                                 stop_spawning = true;
                             } else {
@@ -777,7 +802,56 @@ pub fn check<P: Property>(tier: Tier, seed: u64) -> i32 {
             }
         }
         if let Some(v) = &r.violation {
-            violations.push(v.clone());
+            // verify in a fresh process: a failure must not depend on what ran before it in
+            // the worker. Prefer the shrunk case, fall back to the original failing case.
+            let mut confirmed = None;
+            let mut cands = Vec::new();
+            if !v.replay.is_empty() {
+                cands.push(v.replay.clone());
+            }
+            if let Some(a) = &v.alt_replay {
+                cands.push(a.clone());
+            }
+            if cands.is_empty() {
+                confirmed = Some(v.clone());
+            }
+            for c in cands {
+                let mut hit = None;
+                for _ in 0..2 {
+                    let rv = replay_subprocess(P::ID, Path::new(&c), P::case_timeout() * 4);
+                    if rv.timed_out {
+                        hit = Some(("hang".to_string(), "replay exceeds the watchdog limit".to_string()));
+                        break;
+                    }
+                    if rv.failed {
+                        hit = Some((rv.sig, rv.msg));
+                        break;
+                    }
+                }
+                if let Some((sig, msg)) = hit {
+                    confirmed = Some(Violation {
+                        replay: c,
+                        sig,
+                        msg,
+                        alt_replay: None,
+                    });
+                    break;
+                }
+            }
+            match confirmed {
+                Some(cv) => {
+                    if let Some(k) = kf::match_open(&findings, P::ID, &cv.sig) {
+                        *known_hit.entry(k.id.clone()).or_insert(0) += 1;
+                        *excluded.entry(k.id.clone()).or_insert(0) += 1;
+                    } else {
+                        violations.push(cv);
+                    }
+                }
+                None => inconclusive.push(format!(
+                    "failure '{}' did not reproduce in a fresh process (replay {})",
+                    v.sig, v.replay
+                )),
+            }
         }
     }
     if samples.is_empty() {
